@@ -598,7 +598,36 @@ func runC19(c *fw.Ctx) {
 					{"Unset(absent key)", func() { ho.Unset("absent") }},
 					{"SetTF(other path)", func() { ho.SetTF(".z#3", 1) }},
 					{"UnsetTF(other path)", func() { ho.UnsetTF(".z#0") }},
-					{"Pluck result", func() { ho = ho.Pluck("d", "a").Set("after", 2, "again", 3) }},
+					{"growing to 12 fields", func() {
+						for j := 0; j < 10; j++ {
+							ho.Set(fmt.Sprintf("grow%02d", j), j)
+						}
+					}},
+					{"growing to 40 fields", func() {
+						for j := 10; j < 38; j += 2 {
+							ho.Set(fmt.Sprintf("grow%02d", j), j, fmt.Sprintf("grow%02d", j+1), at.NewList(j))
+						}
+					}},
+					{"shrinking in one call", func() {
+						var ks []string
+						for j := 0; j < 30; j++ {
+							ks = append(ks, fmt.Sprintf("grow%02d", j))
+						}
+						ho.Unset(ks...)
+					}},
+					{"shrinking key by key", func() {
+						for j := 30; j < 38; j++ {
+							ho.Unset(fmt.Sprintf("grow%02d", j))
+						}
+					}},
+					{"shrinking to the derived value alone", func() {
+						for _, k := range ho.Keys().StringSlice() {
+							if k != "d" {
+								ho.Unset(k)
+							}
+						}
+					}},
+					{"Pluck result", func() { ho = ho.Pluck("d").Set("after", 2, "again", 3) }},
 				}
 				for _, st := range steps {
 					if pan, msg := drive.Protect(st.f); pan {
